@@ -83,6 +83,11 @@ func (s *Server) HandlePutService(w http.ResponseWriter, r *http.Request) {
 
 	service.Metadata = *metadata
 
+	// remember what was stored under this name: if the entity ID changes, the
+	// previous one must not stay registered
+	previous := Service{}
+	hadPrevious := s.Store.Get(fmt.Sprintf("/services/%s", r.PathValue("id")), &previous) == nil
+
 	err = s.Store.Put(fmt.Sprintf("/services/%s", r.PathValue("id")), &service)
 	if err != nil {
 		s.logger.Printf("ERROR: %s", err)
@@ -90,7 +95,13 @@ func (s *Server) HandlePutService(w http.ResponseWriter, r *http.Request) {
 		return
 	}
 
+	forgetPrevious := hadPrevious && previous.Metadata.EntityID != service.Metadata.EntityID &&
+		!s.entityIDStored(previous.Metadata.EntityID)
+
 	s.idpConfigMu.Lock()
+	if forgetPrevious {
+		delete(s.serviceProviders, previous.Metadata.EntityID)
+	}
 	s.serviceProviders[service.Metadata.EntityID] = &service.Metadata
 	s.idpConfigMu.Unlock()
 
@@ -113,11 +124,34 @@ func (s *Server) HandleDeleteService(w http.ResponseWriter, r *http.Request) {
 		return
 	}
 
-	s.idpConfigMu.Lock()
-	delete(s.serviceProviders, service.Metadata.EntityID)
-	s.idpConfigMu.Unlock()
+	// another stored service may still carry the same entity ID
+	if !s.entityIDStored(service.Metadata.EntityID) {
+		s.idpConfigMu.Lock()
+		delete(s.serviceProviders, service.Metadata.EntityID)
+		s.idpConfigMu.Unlock()
+	}
 
 	w.WriteHeader(http.StatusNoContent)
+}
+
+// entityIDStored reports whether any stored service currently has entityID. If
+// the store cannot be read it answers true, so that nothing is unregistered on
+// a guess.
+func (s *Server) entityIDStored(entityID string) bool {
+	serviceNames, err := s.Store.List("/services/")
+	if err != nil {
+		return true
+	}
+	for _, serviceName := range serviceNames {
+		service := Service{}
+		if err := s.Store.Get(fmt.Sprintf("/services/%s", serviceName), &service); err != nil {
+			return true
+		}
+		if service.Metadata.EntityID == entityID {
+			return true
+		}
+	}
+	return false
 }
 
 // initializeServices reads all the stored services and initializes the underlying
